@@ -53,11 +53,15 @@ def sim_run(pexpect, case):
     c.child_fd, c.closed, c.pid = CHILD_FD, False, 4242
     c.STDIN_FILENO, c.STDOUT_FILENO = STDIN_FD, STDOUT_FD
     c.buffer = case['pending']
-    c.write_to_stdout = lambda b: stdout.append(bytes(b))
+    # sys.stdout is a buffered stream on top of descriptor 1, the copy loop writes to the descriptor directly: what the
+    # user sees is what has reached the descriptor, in that order
+    pybuf = []
+    c.write_to_stdout = lambda b: pybuf.append(bytes(b))
 
     class Out:
         def flush(self_):
-            pass
+            stdout.extend(pybuf)
+            del pybuf[:]
     c.stdout = Out()
     saved = (ps.select_ignore_interrupts, ps.poll_ignore_interrupts, os.read, os.write, ps.tty.tcgetattr, ps.tty.setraw, ps.tty.tcsetattr)
 
